@@ -10,6 +10,8 @@ import (
 
 	"github.com/tailscale/setec/client/setec"
 	"github.com/tailscale/setec/types/api"
+
+	"verifsim/kernel"
 )
 
 // RealClient returns the real setec.Client wired to the scripted service
@@ -64,6 +66,25 @@ func (w *World) doHTTP(req *http.Request) (*http.Response, error) {
 		return status(req, 304, ""), nil
 	case errors.Is(err, context.Canceled), errors.Is(err, context.DeadlineExceeded):
 		return nil, err // what a transport reports when the request's context ends
+	}
+	// some other failure: whatever a struggling server or a proxy in front of
+	// it might answer, with the hints such answers carry
+	w.failN++
+	switch kernel.Hash64(w.T.Seed, "http-failure/"+gr.Name, uint64(w.failN)) % 6 {
+	case 0:
+		r := status(req, 503, "service unavailable")
+		r.Header.Set("Retry-After", "1")
+		return r, nil
+	case 1:
+		r := status(req, 429, "too many requests")
+		r.Header.Set("Retry-After", "2")
+		return r, nil
+	case 2:
+		return status(req, 502, "bad gateway"), nil
+	case 3:
+		r := status(req, 503, "service unavailable")
+		r.Header.Set("Retry-After", "Wed, 21 Oct 2099 07:28:00 GMT")
+		return r, nil
 	}
 	return status(req, 500, "internal error"), nil
 }
